@@ -81,6 +81,8 @@ class TLCRun:
         self.generated = 0
         self.distinct = 0
         self.chatter = []
+        self.err_head = []      # the first "Error:" paragraph (the chatter tail is a state dump)
+        self._err_left = None
         self.error = None
         self.proc = None
 
@@ -101,6 +103,11 @@ class TLCRun:
                     s = line.rstrip("\n")
                     if s:
                         self.chatter.append(s)
+                        if s.startswith("Error:") and self._err_left is None:
+                            self._err_left = 14
+                        if self._err_left:
+                            self._err_left -= 1
+                            self.err_head.append(s[:400])
                         if len(self.chatter) > 400:
                             del self.chatter[:200]
                     m = _STATS.search(s)
@@ -121,7 +128,8 @@ class TLCRun:
                 if self.mode != "sim":
                     self.error = "TLC timed out"
             elif rc != 0 or "Error:" in text:
-                self.error = "TLC exit %s: %s" % (rc, text[-1500:])
+                self.error = "TLC exit %s: %s" % (rc, "\n".join(self.err_head) if self.err_head
+                                                  else text[-1500:])
 
     def close(self):
         shutil.rmtree(self.dir, ignore_errors=True)
